@@ -204,6 +204,83 @@ theorem C11_pnm_info_terminates (dev : Dev) (bytes : List UInt8) :
     simp only [Pure.pure, StateT.pure, Except.pure]
     cases s'.taint <;> rfl
 
+/-! ## safety proven for ALL inputs: the header readers behind read_image_info -/
+
+/-- read_image_info on a PNM file: for all bytes, both devices and all settings the outcome is a header or a C++
+    exception -- never undefined behaviour, never a hang (the PNM header code uses only checked `getc`) -/
+theorem C11_pnm_info_safe (dev : Dev) (bytes : List UInt8) (st : Settings) (he : st.entry = .info) :
+    safe (decode .pnm dev bytes st) = true := by
+  unfold decode runRaw
+  simp only
+  have key := se_pnm_readHeader adm_isErr { data := bytes.map UInt8.toNat, pos := 0, rest := bytes.map UInt8.toNat, failed := false, dev := dev, taint := none }
+  unfold SEs at key
+  unfold Pnm.run
+  rw [StateT.run, bind_eq]
+  cases h : Pnm.readHeader { data := bytes.map UInt8.toNat, pos := 0, rest := bytes.map UInt8.toNat, failed := false, dev := dev, taint := none } with
+  | error e =>
+    rw [h] at key
+    obtain ⟨k, hk⟩ := key
+    subst hk
+    rfl
+  | ok p =>
+    obtain ⟨i, s'⟩ := p
+    rw [h] at key
+    have ht : s'.taint = none := key.2.2
+    simp only [he, Pure.pure, StateT.pure, Except.pure, ht]
+    rfl
+
+/-- read_image_info on a TARGA file through a file name or FILE*: for all bytes and settings the outcome is a header or
+    a C++ exception (the file device checks every fixed-size read). Through std::istream this is FALSE
+    (`C11_istream_short_read_witness` is the BMP instance of the same device defect). -/
+theorem C11_targa_info_safe (bytes : List UInt8) (st : Settings) (he : st.entry = .info) :
+    safe (decode .tga .file bytes st) = true := by
+  unfold decode runRaw
+  simp only
+  have key := sef_tga_readHeader adm_isErr { data := bytes.map UInt8.toNat, pos := 0, rest := bytes.map UInt8.toNat, failed := false, dev := .file, taint := none } rfl
+  unfold SEs at key
+  unfold Tga.run
+  rw [StateT.run, bind_eq]
+  cases h : Tga.readHeader { data := bytes.map UInt8.toNat, pos := 0, rest := bytes.map UInt8.toNat, failed := false, dev := .file, taint := none } with
+  | error e =>
+    rw [h] at key
+    obtain ⟨k, hk⟩ := key
+    subst hk
+    rfl
+  | ok p =>
+    obtain ⟨i, s'⟩ := p
+    rw [h] at key
+    have ht : s'.taint = none := key.2.2
+    simp only [he, Pure.pure, StateT.pure, Except.pure, ht]
+    rfl
+
+/-- read_image_info on a BMP file through a file name or FILE*, all bytes: a header, a C++ exception, or exactly the
+    `height == INT_MIN` negation (`C11_bmp_int_min_height_witness`) -- nothing else can go wrong -/
+theorem C11_bmp_info_safe_partial (bytes : List UInt8) (st : Settings) (he : st.entry = .info) :
+    safe (decode .bmp .file bytes st) = true ∨
+    ubSite (decode .bmp .file bytes st) = some "negation-overflow@extension/io/bmp/detail/reader_backend.hpp:read_header" := by
+  unfold decode runRaw
+  simp only
+  have key := sef_bmp_readHeader { data := bytes.map UInt8.toNat, pos := 0, rest := bytes.map UInt8.toNat, failed := false, dev := .file, taint := none } rfl
+  unfold SEs at key
+  unfold Bmp.run
+  rw [StateT.run, bind_eq]
+  cases h : Bmp.readHeader { data := bytes.map UInt8.toNat, pos := 0, rest := bytes.map UInt8.toNat, failed := false, dev := .file, taint := none } with
+  | error e =>
+    rw [h] at key
+    rcases key with ⟨k, hk⟩ | ⟨w, hw⟩
+    · subst hk; left; rfl
+    · subst hw; right; rfl
+  | ok p =>
+    obtain ⟨i, s'⟩ := p
+    rw [h] at key
+    have ht : s'.taint = none := key.2.2
+    left
+    simp only [he, Pure.pure, StateT.pure, Except.pure, ht]
+    rfl
+
+example : safe (decode .tga .file [] { entry := .info, dst := .none, x0 := 0, y0 := 0, dw := 0, dh := 0, vw := 0, vh := 0 }) = true :=
+  C11_targa_info_safe [] _ rfl
+
 example : (3 : Nat) < 4 := by decide   -- (the hypotheses `s.rest.length < fuel` are what `fuelHere` establishes: rest.length < rest.length + 1)
 
 /-
